@@ -90,6 +90,7 @@ SERVICES_EDITS = [
     ("video_job.service -> a service on another server, with other parameters", {"second_video": True},
      lambda b: setattr(b["video_job"], "service", b["video2"]), {"video_on_second": True}),
     ("video_job.resolution = 4K", {}, lambda b: setattr(b["video_job"], "resolution", H.SourceObject("4K (3840 x 2160)")), {"video_resolution": "4K (3840 x 2160)"}),
+    ("genai.server -> a GPU server with another RAM per GPU", {"second_gpu": True}, lambda b: setattr(b["genai"], "server", b["gpu2"]), {"genai_on_second": True}),
     ("webapp.technology = rust", {}, lambda b: setattr(b["webapp"], "technology", H.SourceObject("rust-actix-sqlx")), {"technology": "rust-actix-sqlx"}),
 ]
 
@@ -140,6 +141,8 @@ def run(tier, seed, procs=16):
         if r.get("shared") and r["status"] in ("stale", "edit-raised-but-fresh-build-succeeds"): sig = "D1"
         elif r["kind"] == "grouped" and r["status"] == "stale" and any(is_link(e) for e in r["edits"]) and not all(is_link(e) for e in r["edits"]): sig = "D20"
         elif r.get("jobless") and r["status"] == "stale" and netonly: sig = "D12"
+        elif (r["topology"] == "services:genai.server -> a GPU server with another RAM per GPU" and r["status"] == "stale" and "genai_job.compute_needed" in r["diff"]
+              and all(x == "genai_job.compute_needed" or x.startswith("gpu2.") or x == "system.total_footprint" for x in r["diff"])): sig = "D22"
         viol.append({"signature": sig, "what": f"C01 on topology '{r['topology']}' after {r['kind']} edits {r['edits']}: {r['status']} "
                      f"{r['diff'][:8]} {r.get('error', '')}", "input": {"topology": r["topology"], "edits": r["edits"]}})
     return {"evaluations": len(res), "distinct_nontrivial": len(nontrivial),
